@@ -92,7 +92,7 @@ def sim_scenario(sc):
         attempts.append({"events": evs, "tls": bool(a.get("tls"))})
     return {"scheme": sc.get("scheme", "ws"), "callbacks": dict(sc["callbacks"]), "attempts": attempts, "args": args,
             "closer_rel": closer, "runs": 1, "custom_dispatcher": bool(sc.get("custom_dispatcher")), "reconnect_via_setter": bool(sc.get("reconnect_via_setter")), "header_callable": bool(sc.get("header_callable")),
-            "tie": sc.get("tie", [])}
+            "callback_form": sc.get("callback_form", "function"), "tie": sc.get("tie", [])}
 
 
 def impl_line(res):
